@@ -1,7 +1,9 @@
 (* C19 proofs: the decision table accepts exactly the documented combinations. *)
-From Coq Require Import List Bool Arith Lia ZArith Floats.PrimFloat.
+From Coq Require Import List Bool Arith Lia ZArith String.
+From Coq Require Import Floats.SpecFloat Floats.PrimFloat Floats.FloatAxioms Floats.FloatOps.
+From Flocq Require Import IEEE754.BinarySingleNaN IEEE754.PrimFloat.
 Import ListNotations.
-From ByC Require Import Base.Result Base.FloatFacts Model.Validate.
+From ByC Require Import Base.Result Base.FloatFacts Harness.Compare Model.Validate.
 
 Theorem group_accepts_iff s k a : group_accepts s k a = true <-> documented_valid s k a.
 Proof.
@@ -51,6 +53,45 @@ Qed.
 Theorem in_range_nan lo hi : in_range nan lo hi = true.
 Proof. unfold in_range. now rewrite ltb_nan_l, ltb_nan_r. Qed.
 
+(* infinite values are outside every finite range *)
+Lemma Prim2B_infinity : Prim2B infinity = B754_infinity false.
+Proof. rewrite infinity_equiv. apply Prim2B_B2Prim. Qed.
+Lemma Prim2B_neg_infinity : Prim2B neg_infinity = B754_infinity true.
+Proof. rewrite neg_infinity_equiv. apply Prim2B_B2Prim. Qed.
+
+Lemma ltb_infinity_r x : finite x = true -> (x <? infinity)%float = true.
+Proof.
+  unfold finite. rewrite ltb_equiv, Prim2B_infinity.
+  destruct (Prim2B x) as [s|s| |s m e He]; cbn; intros Hf; try discriminate Hf; try reflexivity;
+    destruct s; reflexivity.
+Qed.
+Lemma ltb_neg_infinity_l x : finite x = true -> (neg_infinity <? x)%float = true.
+Proof.
+  unfold finite. rewrite ltb_equiv, Prim2B_neg_infinity.
+  destruct (Prim2B x) as [s|s| |s m e He]; cbn; intros Hf; try discriminate Hf; try reflexivity;
+    destruct s; reflexivity.
+Qed.
+
+Theorem in_range_infinite lo hi : finite lo = true -> finite hi = true ->
+  in_range infinity lo hi = false /\ in_range neg_infinity lo hi = false.
+Proof.
+  intros Fl Fh. unfold in_range. split.
+  - rewrite (ltb_infinity_r hi Fh), orb_true_r. reflexivity.
+  - rewrite (ltb_neg_infinity_l lo Fl). reflexivity.
+Qed.
+
+(* the sampling-rate check accepts exactly the values above zero (NaN and zero are rejected) *)
+Theorem fs_ok_iff fs : fs_ok fs = true <-> (0 <? fs)%float = true.
+Proof. reflexivity. Qed.
+Theorem fs_ok_rejects : fs_ok 0 = false /\ fs_ok (-0) = false /\ fs_ok nan = false /\ fs_ok neg_infinity = false.
+Proof. vm_compute. repeat split. Qed.
+Theorem fs_ok_nonpositive fs : finite fs = true -> (fs <=? 0)%float = true -> fs_ok fs = false.
+Proof.
+  intros Ff Hle. unfold fs_ok.
+  assert (F0 : finite 0%float = true) by reflexivity.
+  rewrite (ltb_total 0%float fs F0 Ff), Hle. reflexivity.
+Qed.
+
 Theorem min_n_ok_iff n : min_n_ok n = true <-> (0 <= n)%Z.
 Proof. unfold min_n_ok. apply Z.leb_le. Qed.
 
@@ -59,6 +100,55 @@ Proof.
   destruct o as [i|]; unfold option_ok.
   - rewrite Nat.ltb_lt. split; [eauto|]. intros (j & [= ->] & H). exact H.
   - split; [discriminate|]. intros (j & H & _). discriminate.
+Qed.
+
+(* the documented tables: a value is accepted iff it is listed for that option *)
+Lemma ostr_eqb_eq a b : ostr_eqb a b = true <-> a = b.
+Proof.
+  destruct a as [a|], b as [b|]; cbn; try (split; [discriminate|discriminate]); try (split; reflexivity).
+  rewrite String.eqb_eq. split; [intros ->; reflexivity|intros [= ->]; reflexivity].
+Qed.
+
+Lemma index_of_Some v l i : index_of v l = Some i -> i < List.length l /\ nth_error l i = Some v.
+Proof.
+  revert i. induction l as [|x t IH]; intros i H; [discriminate H|].
+  cbn [index_of] in H. destruct (ostr_eqb v x) eqn:E.
+  - injection H as <-. apply ostr_eqb_eq in E. subst x. split; [cbn; lia|reflexivity].
+  - destruct (index_of v t) as [j|] eqn:Ej; [|discriminate H]. cbn in H. injection H as <-.
+    destruct (IH j eq_refl) as (Hj & Hn). split; [cbn; lia|exact Hn].
+Qed.
+
+Lemma index_of_None v l : index_of v l = None -> ~ In v l.
+Proof.
+  induction l as [|x t IH]; intros H; [intros []|].
+  cbn [index_of] in H. destruct (ostr_eqb v x) eqn:E; [discriminate H|].
+  destruct (index_of v t) as [j|] eqn:Ej; [discriminate H|].
+  intros [Hx|Hin].
+  - subst x. assert (Hrefl : ostr_eqb v v = true) by (apply ostr_eqb_eq; reflexivity). congruence.
+  - exact (IH eq_refl Hin).
+Qed.
+
+Theorem option_accepts_iff o v : option_accepts o v = true <-> In v (documented_options o).
+Proof.
+  unfold option_accepts, to_opt.
+  destruct (index_of v (documented_options o)) as [i|] eqn:E.
+  - destruct (index_of_Some _ _ _ E) as (Hi & Hn). cbn [option_ok].
+    split; [intros _; exact (nth_error_In _ _ Hn)|intros _; apply Nat.ltb_lt; exact Hi].
+  - cbn [option_ok]. split; [discriminate|]. intros Hin. exfalso. exact (index_of_None _ _ E Hin).
+Qed.
+
+(* the tables, spelled out (by computation) *)
+Theorem option_tables :
+  (forall v, option_accepts OCenter v = true <-> v = Some "peak"%string \/ v = Some "trough"%string) /\
+  (forall v, option_accepts OBurstMethod v = true <-> v = Some "cycles"%string \/ v = Some "amp"%string) /\
+  (forall v, option_accepts OFirstExtrema v = true <-> v = Some "peak"%string \/ v = Some "trough"%string \/ v = None) /\
+  (forall v, option_accepts ODirection v = true <-> v = Some "both"%string \/ v = Some "next"%string \/ v = Some "last"%string) /\
+  (forall v, option_accepts OProgress v = true <-> v = None \/ v = Some "tqdm"%string \/ v = Some "tqdm.notebook"%string).
+Proof.
+  repeat split; intros H;
+    try (apply option_accepts_iff in H; cbn in H;
+         repeat (destruct H as [H|H]; [subst; auto|]); try destruct H; auto; fail);
+    apply option_accepts_iff; cbn; repeat (destruct H as [H|H]; [subst; auto 6|]); subst; auto 6.
 Qed.
 
 Theorem dims_guards : (forall d, bycycle_fit_dim_ok d = true <-> d = 1%nat) /\
